@@ -27,6 +27,7 @@ import (
 	"io"
 	"net"
 	"os"
+	"os/exec"
 	"path/filepath"
 	"sort"
 	"strconv"
@@ -996,6 +997,50 @@ func raceRestartPending(c *Ctx, im *Impl, cf *CaseFile, n *Node, daemonPids map[
 	im.Hist("race:restart-while-pending")
 }
 
+// restartFinishedCancel: the daemon is killed while the unit runs, the unit finishes, the daemon
+// comes back (the record still names the runner's pid) and the unit is cancelled: the signal finds
+// no process ("already finished"), nothing may be written, Succeeded stays.
+func restartFinishedCancel(c *Ctx, im *Impl, cf *CaseFile, n *Node, daemonPids map[int]bool, attempt int) {
+	script := trap + "echo a; sleep 0.7 & wait $!; echo b"
+	unit, _, err := Submit(n.Sock, map[string]interface{}{"worktype": "sh", "params": shQuote(script)}, []byte("x"), tmo)
+	if err != nil {
+		im.Violate("submit failed: "+err.Error(), "c13-submit-failed", nil)
+		return
+	}
+	if _, _, _, ok := waitDisk(n, unit, 3*time.Second, func(st int, det string, pid int) bool { return st == 1 && pid > 0 }); !ok {
+		im.Hist("race:restart-finished-cancel:not-reached")
+		return
+	}
+	n.Kill()
+	waitDisk(n, unit, 5*time.Second, func(st int, det string, pid int) bool { return st == 2 })
+	startNode(n)
+	daemonPids[n.Cmd.Process.Pid] = true
+	if !waitListed(n, unit, 5*time.Second) {
+		im.Violate("unit not listed after restart", "c13-unit-lost-at-restart", nil)
+		return
+	}
+	before := len(unitLog(n, unit))
+	reply, rerr := OneShot(n.Sock, map[string]interface{}{"command": "work", "subcommand": "cancel", "unitid": unit}, tmo)
+	time.Sleep(200 * time.Millisecond)
+	lines := unitLog(n, unit)
+	ctx := map[string]interface{}{"scenario": "daemon killed while the unit runs; the unit finishes; daemon restarted; work cancel", "script": script, "cancel_reply": reply}
+	if rerr != nil || !strings.Contains(reply, "cancelled") {
+		im.Violate(fmt.Sprintf("unit %s: cancel of a finished unit after restart answered %q %v", unit, reply, rerr), "c13-cancel-reply", ctx)
+	}
+	judgeLog(im, unit, lines, true, false, ctx)
+	if st, _, _ := diskStatus(n, unit); st != 2 {
+		im.Violate(fmt.Sprintf("unit %s had succeeded; after restart + cancel its stored state is %d", unit, st), "c13-succeeded-overwritten", ctx)
+	}
+	if st, err := WorkStatus(n.Sock, unit, tmo); err == nil {
+		if s, _, _, ok := statusOf(st); ok && s != 2 {
+			im.Violate(fmt.Sprintf("unit %s had succeeded; after restart + cancel it is reported as %s", unit, workceptor.WorkStateToString(s)), "c13-succeeded-overwritten", ctx)
+		}
+	}
+	cf.Add("CLogR "+coqLog(lines, daemonPids), fmt.Sprintf("restart, finished, cancel: unit %s | %s", unit, strings.Join(fmtLog(lines), " ; ")))
+	im.Count(fmt.Sprintf("race-rfc %v", fmtLog(lines)), true)
+	im.Hist(fmt.Sprintf("race:restart-finished-cancel:writes-after-cancel=%d", len(lines)-before))
+}
+
 func part2(c *Ctx, im *Impl, cf *CaseFile, tmp string) {
 	n := newNode(c, filepath.Join(tmp, "n2"), "n2")
 	startNode(n)
@@ -1016,6 +1061,9 @@ func part2(c *Ctx, im *Impl, cf *CaseFile, tmp string) {
 	}
 	for i := 0; i < nRP; i++ {
 		raceRestartPending(c, im, cf, n, daemonPids, i)
+	}
+	for i := 0; i < 1+nRP/4; i++ {
+		restartFinishedCancel(c, im, cf, n, daemonPids, i)
 	}
 }
 
@@ -1407,6 +1455,47 @@ func releaseUnderLookups(c *Ctx, im *Impl, n *Node, round int) {
 
 var rng4 *Rng // part 4 runs next to the other parts: its own stream, derived from the seed
 
+// releaseThatFails: a file that cannot be removed (immutable attribute) makes RemoveAll fail: the
+// release retries and then answers with an error; the unit must not be reported released, must stay
+// known, and a release after the obstacle is gone must remove it completely.
+func releaseThatFails(c *Ctx, im *Impl, n *Node) {
+	unknown := func(s string) bool { return strings.Contains(s, "unknown work unit") }
+	unit, _, err := Submit(n.Sock, map[string]interface{}{"worktype": "sh", "params": shQuote("echo done; exit 0")}, []byte("x"), tmo)
+	if err != nil {
+		im.Violate("submit failed: "+err.Error(), "c13-submit-failed", nil)
+		return
+	}
+	waitDisk(n, unit, 5*time.Second, func(st int, det string, pid int) bool { return st == 2 })
+	time.Sleep(150 * time.Millisecond)
+	pin := filepath.Join(n.UnitDir(unit), "pinned")
+	Must(os.WriteFile(pin, []byte("x"), 0o600))
+	if out, err := exec.Command("chattr", "+i", pin).CombinedOutput(); err != nil {
+		im.Hist("release-fails:chattr-unavailable " + strings.TrimSpace(string(out)))
+		_, _ = OneShot(n.Sock, map[string]interface{}{"command": "work", "subcommand": "release", "unitid": unit}, tmo)
+		return
+	}
+	defer func() { _ = exec.Command("chattr", "-i", pin).Run() }()
+	ctx := map[string]interface{}{"scenario": "work release of a unit whose directory holds a file that cannot be removed", "unit": unit}
+	reply, rerr := OneShot(n.Sock, map[string]interface{}{"command": "work", "subcommand": "release", "unitid": unit}, 30*time.Second)
+	ctx["first_reply"] = reply
+	if rerr != nil || strings.Contains(reply, "released") || !strings.HasPrefix(reply, "ERROR") {
+		im.Violate(fmt.Sprintf("unit %s: release answered %q %v although its directory cannot be removed", unit, reply, rerr), "c13-release-leaves-directory", ctx)
+	}
+	if l, err := OneShot(n.Sock, map[string]interface{}{"command": "work", "subcommand": "status", "unitid": unit}, tmo); err != nil || unknown(l) {
+		im.Violate(fmt.Sprintf("unit %s: after a FAILED release work status answers %q %v", unit, l, err), "c13-failed-release-forgets-unit", ctx)
+	}
+	_ = exec.Command("chattr", "-i", pin).Run()
+	reply, rerr = OneShot(n.Sock, map[string]interface{}{"command": "work", "subcommand": "release", "unitid": unit}, 30*time.Second)
+	ctx["second_reply"] = reply
+	_, serr := os.Stat(n.UnitDir(unit))
+	l, _ := OneShot(n.Sock, map[string]interface{}{"command": "work", "subcommand": "status", "unitid": unit}, tmo)
+	if rerr != nil || !strings.Contains(reply, "released") || serr == nil || !unknown(l) {
+		im.Violate(fmt.Sprintf("unit %s: release after the obstacle was removed answered %q %v; directory exists: %v; status: %q", unit, reply, rerr, serr == nil, l), "c13-release-leaves-directory", ctx)
+	}
+	im.Count("release-fails "+unit, true)
+	im.Hist("release-fails:retried-and-reported")
+}
+
 func part4(c *Ctx, im *Impl, tmp string) {
 	rng4 = NewRng(c.Seed + 4000)
 	n := newNode(c, filepath.Join(tmp, "n3"), "n3")
@@ -1419,6 +1508,7 @@ func part4(c *Ctx, im *Impl, tmp string) {
 	for i := 0; i < rounds; i++ {
 		releaseUnderLookups(c, im, n, i)
 	}
+	releaseThatFails(c, im, n)
 	if !n.Alive() {
 		im.Violate("the daemon died during releases: "+n.ExitState(), "c13-daemon-died", nil)
 	}
@@ -1770,6 +1860,36 @@ func part7(c *Ctx, im *Impl, cf *CaseFile, tmp string) {
 	run(0, "complete")
 	run(1, "cancel")
 	run(2, "unreachable") // kills rb: last
+	// rb is down: a submit stays pending locally; cancel and release are local
+	for k, sub := range []string{"cancel", "release"} {
+		unit, reply, err := Submit(ra.Sock, map[string]interface{}{"node": "rb", "worktype": "sh", "params": shQuote("echo never")}, []byte("x"), tmo)
+		ctx := map[string]interface{}{"scenario": "remote unit whose node is down: " + sub, "unit": unit, "submit_reply": reply}
+		if err != nil {
+			im.Violate("submit to an unreachable node failed instead of staying pending: "+err.Error(), "c13-submit-failed", ctx)
+			continue
+		}
+		time.Sleep(300 * time.Millisecond)
+		l, rerr := OneShot(ra.Sock, map[string]interface{}{"command": "work", "subcommand": sub, "unitid": unit}, 30*time.Second)
+		ctx["reply"] = l
+		time.Sleep(200 * time.Millisecond)
+		lines := unitLog(ra, unit)
+		judgeLog(im, unit, lines, false, true, ctx)
+		cf.Add("CLogA "+coqLogA(lines), fmt.Sprintf("remote unit %s never started (%s) | %s", unit, sub, strings.Join(fmtLog(lines), " ; ")))
+		if sub == "cancel" {
+			st, _, _ := diskStatus(ra, unit)
+			if rerr != nil || !strings.Contains(l, "cancelled") || stage(st) != 2 {
+				im.Violate(fmt.Sprintf("remote unit %s that never started: cancel answered %q %v, stored state %d", unit, l, rerr, st), "c13-cancel-reply", ctx)
+			}
+			l, rerr = OneShot(ra.Sock, map[string]interface{}{"command": "work", "subcommand": "release", "unitid": unit}, 30*time.Second)
+		}
+		_, serr := os.Stat(ra.UnitDir(unit))
+		s2, _ := OneShot(ra.Sock, map[string]interface{}{"command": "work", "subcommand": "status", "unitid": unit}, tmo)
+		if rerr != nil || !strings.Contains(l, "released") || serr == nil || !unknown(s2) {
+			im.Violate(fmt.Sprintf("remote unit %s that never started: release answered %q %v; directory exists: %v; status: %q", unit, l, rerr, serr == nil, s2), "c13-known-after-release", ctx)
+		}
+		im.Count(fmt.Sprintf("remote never started %s %d", sub, k), len(lines) >= 3)
+		im.Hist("remote:never-started-" + sub)
+	}
 }
 
 func mergeImpl(im, im2 *Impl) {
